@@ -300,7 +300,7 @@ func init() {
 		}
 		c09Sweep(c, u, budget, quick)
 		c09Structural(c, u, &tkBudget{max: 150})
-		n, ops, prob, max := 5, 200, 1, 1000
+		n, ops, prob, max := 8, 250, 2, 1000
 		if !quick {
 			n, ops, prob, max = 40, 500, 2, 9000
 		}
